@@ -23,7 +23,7 @@ from vk.symnp import det_ref, ref_einsum
 TRUSTED = [
     "C03 (A3): tensortrax / jax automatic differentiation return the exact derivatives of the function they are given (tr.gradient/hessian/jacobian/function, jax.grad/jacobian/vmap/jit replaced by contract stubs); correctness of those libraries is not verified",
     "C03: StubMaterial is the callee contract of a constitutive material (P = dW/dF, A = dP/dF, A major-symmetric for hyperelastic) -- wrappers are verified against it, never against a concrete body",
-    "C03: viscoelastic rate models at zero increment and the internal updates of finite_strain_viscoelastic / morph history models are not decided (only the generic wrapper contract covers them)",
+    "C03: history models: the internal update of finite_strain_viscoelastic is under contract (C03 `model_viscoelastic`), MORPH by representative directions in C11/C12 `morph_rd`; NOT decided: the internal update of the Lagrange `morph` model (expm / eigvalsh of a general rate tensor: only the generic wrapper contract and native bounded stand-ins cover it; open known finding C11/C12) and the viscoelastic rate models at zero time increment",
     "C03: np.isclose(eta, 1) in OgdenRoxburgh.hessian is read as exact equality (A1); the max-history switch W == Wmax is excluded as the property states",
 ]
 
